@@ -11,6 +11,8 @@ Check (C08_sweep_eq_rle_depth : forall U es,
   U <= U32_MAX -> Forall (entry_ok U) es -> starts_sorted es ->
   segs_sorted 0 (sweep_emitted es) /\ Forall (seg_ok U) (sweep_emitted es) /\
   (forall x, x < U32_MAX -> segs_depth (sweep_emitted es) x = depth es x)).
+Check (C08_accepted_valid : forall U len es, U <= U32_MAX -> len <= U32_MAX -> Forall (fun e => e_end e <= U) es ->
+  bb_check_chrom len es = Ok tt -> valid_zoom_chrom U es).
 Check (C08_ordered_disjoint : forall U ips size chrom es secs,
   1 <= size -> valid_zoom_chrom U es -> bb_zoom_records exact ips size chrom es = Ok secs ->
   recs_sorted 0 (concat secs) /\
@@ -28,6 +30,12 @@ Check (C08_tiling_terminates : forall fp ips size chrom es, 1 <= size ->
   exists secs, bb_zoom_records fp ips size chrom es = Ok secs).
 Check (C08_levels_increasing : forall fp two_pass o sizes input sum levels cs,
   bb_file fp two_pass o sizes input = Ok (sum, levels, cs) -> sincr (map fst levels)).
+Check (C08_file_levels : forall fp two_pass o sizes input sum levels cs,
+  bb_file fp two_pass o sizes input = Ok (sum, levels, cs) ->
+  Forall (fun l => 1 <= fst l) levels /\ Forall (level_from fp o cs) levels).
+Check (eq_refl : level_from = fun fp o cs l =>
+  exists per, Forall2 (fun c secs => bb_zoom_records fp (o_ips o) (fst l) (bc_id c) (bc_es c) = Ok secs) cs per /\
+              snd l = concat per).
 Check (C08_zoom_query_partial : forall (recs : list zrec) s e z,
   In z recs -> z_start z < e -> s < z_end z ->
   In z (filter (fun z => (s <=? z_end z) && (z_start z <=? e)) recs)).
